@@ -82,6 +82,9 @@ def focus(r):
         f["jgroup"] = True
     if r.random() < 0.3:
         f["progs"] = True
+    if f["junctions"] >= 2 and (f["junctions"] + int(f["nsteps"])) % 3 == 0:
+        f["jreverse"] = True
+        f["residual"] = True
     return f
 
 
@@ -439,8 +442,51 @@ def probe_two_types(ctx):
                 break
 
 
+def probe_explicit_init_junction(ctx):
+    """People that an explicit initialization (ParameterSet.set_initialization / Initialization values) places in a junction are pushed downstream by the junction's
+    proportions before the first step: the junction is empty at the first time point and nobody is lost."""
+    from atomica.model import Model
+
+    r = ctx.rng
+    P = dict(timescale=None, function=None, min=None, max=None, timed=False, targetable=False, databook=True)
+    for k in range(ctx.n(2, 8)):
+        p0 = r.choice([0.25, 0.6])
+        spec = {"comps": [{"name": "c0", "kind": "normal", "databook": True, "init": {"pa": 100.0}}, {"name": "c1", "kind": "normal", "databook": True, "init": {"pa": 10.0}},
+                          {"name": "j0", "kind": "junction", "databook": True, "init": {"pa": 0.0}}],
+                "characs": [], "pars": [dict(P, name="ra0", format="rate", value={"pa": 0.2}), dict(P, name="pr0", format="proportion", value={"pa": p0}), dict(P, name="pr1", format="proportion", value={"pa": 1 - p0})],
+                "transitions": [["c0", "j0", "ra0"], ["j0", "c0", "pr0"], ["j0", "c1", "pr1"]], "pops": ["pa"], "transfers": [], "interactions": [], "settings": [2000, 2003, 1.0]}
+        key = {"probe": "explicit-initialization-with-people-in-a-junction", "k": k}
+        try:
+            fw, data, parset, settings = genfw.build(spec)
+            m0 = Model(settings, fw, parset); m0.process()
+            import atomica as at
+            res = at.Result(model=m0, parset=parset, name="first")
+            parset.set_initialization(res, year=2001.0)
+            add = r.choice([25.0, 7.5])
+            jk = [kk for kk in parset.initialization.values if kk[0] == "j0"]
+            if jk:
+                parset.initialization.values[jk[0]] = add
+            else:
+                parset.initialization.values[("j0", "pa")] = add
+            want_total = float(sum(np.sum(v) for v in parset.initialization.values.values()))
+            m1 = Model(at.ProjectSettings(2001.0, 2003.0, 1.0), fw, parset); m1.process()
+        except Exception as e:
+            ctx.brk("correspondence", f"explicit-initialization model could not be run: {type(e).__name__}: {str(e)[:200]}", case=key, spec=spec)
+            continue
+        ctx.count("probe.explicit_init_junction")
+        ctx.case(key, nontrivial=True)
+        pop = m1.pops[0]
+        j = float(np.asarray(pop.get_comp("j0").vals)[0])
+        tot0 = float(sum(np.asarray(c.vals, dtype=float)[0] for c in pop.comps))
+        if abs(j) > 1e-12 or abs(tot0 - want_total) > 1e-9 * max(1.0, want_total):
+            ctx.violation({"api": "Initialization.apply", "case": "people-placed-in-a-junction"},
+                          f"explicit initialization with {add} people in junction j0 (proportions {p0}/{1 - p0}): at the first time point the junction holds {j!r} and the population totals {tot0!r}; the initialization holds {want_total!r} people",
+                          {"spec": spec, "how": "props/c04.probe_explicit_init_junction"})
+
+
 def run(ctx):
     probe_double_residual(ctx)
+    probe_explicit_init_junction(ctx)
     probe_two_types(ctx)
     engine_corr.selfcheck_ref(ctx, 2)
     engine_corr.run_stream(ctx, PROPERTY, ctx.n(120, 3000), regimes=REGIMES, focus=focus, workers=12)
